@@ -48,6 +48,8 @@ def gen(rng, tier):
         cbs = 1 << 22
     cuts = []
     style = rng.choice(['prefix', 'boundary', 'random', 'ones', 'single', 'mixed', 'mixed'])
+    if big and style == 'ones':
+        style = 'mixed'          # millions of one-byte reads take minutes on a loaded machine and add nothing over 64 KiB
     nf = max(1, -(-nitems // max(1, cbs // itemsize))) if nitems else 0
     if style in ('prefix', 'mixed'):
         for f in range(nf):
